@@ -9,13 +9,18 @@ use rayon::prelude::*;
 use serde_json::{json, Value};
 use std::hash::BuildHasherDefault;
 
+type NoHash = probminhash::nohasher::NoHashHasher;
+
 fn dens_view(kind: &str, m: usize, items: &[u64]) -> Vec<u64> {
-    // kind = dens_<opt|rev>_<f64|f32>_<u64|float|u32>
+    // kind = dens_<opt|rev>_<f64|f32>_<u64|float|u32>[_no]   (_no: the crate's identity hasher)
     let p: Vec<&str> = kind.split('_').collect();
     let bh = BuildHasherDefault::<FnvHasher>::default();
     macro_rules! go {
         ($ty:ident, $f:ty) => {{
-            let mut s = $ty::<$f, u64, FnvHasher>::new(m, bh);
+            go!($ty, $f, FnvHasher, bh)
+        }};
+        ($ty:ident, $f:ty, $h:ty, $bh:expr) => {{
+            let mut s = $ty::<$f, u64, $h>::new(m, $bh);
             s.sketch_slice(items).unwrap();
             match p[3] {
                 "u64" => s.get_hsketch_u64(),
@@ -23,6 +28,16 @@ fn dens_view(kind: &str, m: usize, items: &[u64]) -> Vec<u64> {
                 _ => s.get_hsketch().iter().map(|x| (*x as f64).to_bits()).collect(),
             }
         }};
+    }
+    if p.len() > 4 && p[4] == "no" {
+        let nb = BuildHasherDefault::<NoHash>::default();
+        return match (p[1], p[2]) {
+            ("opt", "f64") => go!(OptDensMinHash, f64, NoHash, nb),
+            ("opt", "f32") => go!(OptDensMinHash, f32, NoHash, nb),
+            ("rev", "f64") => go!(RevOptDensMinHash, f64, NoHash, nb),
+            ("rev", "f32") => go!(RevOptDensMinHash, f32, NoHash, nb),
+            _ => tool_error("unknown dens kind"),
+        };
     }
     match (p[1], p[2]) {
         ("opt", "f64") => go!(OptDensMinHash, f64),
@@ -48,6 +63,9 @@ fn sketch_bits(kind: &str, m: usize, items: &[Item], entry: usize) -> Vec<u64> {
 
 /// both sets through ONE sketcher object: sketch A, read, reinit/reset, sketch B, read (kinds that offer reinit/reset)
 fn sketch_bits_reuse(kind: &str, m: usize, ia: &[Item], ib: &[Item], entry: usize) -> Option<(Vec<u64>, Vec<u64>)> {
+    if kind.starts_with("dens_") && kind.ends_with("_no") {
+        return None;
+    }
     if kind.starts_with("dens_") {
         let p: Vec<&str> = kind.split('_').collect();
         let bh = BuildHasherDefault::<FnvHasher>::default();
@@ -129,11 +147,27 @@ fn pairs(a: &Args) {
                 let mut ia: Vec<Item> = Vec::new();
                 let mut ib: Vec<Item> = Vec::new();
                 let mut ids: Vec<u64> = Vec::with_capacity(n);
+                // "ids": "paired" - every second identifier is the previous one with two of its bytes swapped (an identity
+                // hasher that folds or reorders bytes wrongly makes such pairs collide); "low32": identifiers below 2^32
+                let idmode = cell["ids"].as_str().unwrap_or("random");
+                let narrow = idmode == "paired32" || idmode == "low32";
+                let mask: u64 = if narrow { 0xffff_ffff } else { u64::MAX };
                 for g in &gs {
                     for _ in 0..g.0 {
-                        let mut id = rng.random::<u64>();
+                        let mut id = rng.random::<u64>() & mask;
+                        if idmode.starts_with("paired") && ids.len() % 2 == 1 {
+                            let mut b = ids[ids.len() - 1].to_le_bytes();
+                            let top = if narrow { 4 } else { 8 };
+                            if rng.random_range(0..2) == 0 {
+                                let i = rng.random_range(0..top - 1);
+                                b.swap(i, i + 1);
+                            } else {
+                                b.swap(rng.random_range(0..top), rng.random_range(0..top));
+                            }
+                            id = u64::from_le_bytes(b);
+                        }
                         while id == INITOBJ || ids.contains(&id) && n < 2000 {
-                            id = rng.random::<u64>();
+                            id = rng.random::<u64>() & mask;
                         }
                         ids.push(id);
                         if g.1 > 0.0 {
